@@ -423,6 +423,21 @@ static void f11_render (uint64_t idx) {
 static int f11_ninputs (uint64_t idx) { return NGD * NGD; }
 static pinput f11_input (uint64_t idx, int i) { pinput p = {1, 2, -1, GRID_D[i / NGD], GRID_D[i % NGD]}; return p; }
 
+/* =============================== F12: variables tied to hard registers (self-contained uses: no call while the variable is live) =============================== */
+static const char *F12_REG[] = {"r9", "r8", "rbx", "r12", "r15"};
+static uint64_t f12_count (int th) { return 5 * 4; }
+static void f12_render (uint64_t idx) {
+  int rg = idx % 5, shape = (int) (idx / 5);
+  ptl = 0; S ("%sf: func i64, i64:a, i64:b, p:m, p:q, d:x, d:y\n  local i64:r, i64:r0, i64:r1, i64:r2, i64:k\n  global i64:g:%s\n  mov r0, g\n", PRELUDE, F12_REG[rg]); /* the register's old value is restored before returning */
+  switch (shape) {
+  case 0: S ("  mov g, a\n  add g, g, b\n  mov r, g\n"); break;
+  case 1: S ("  mov g, a\n  mov k, 3\nL1:\n  add g, g, b\n  mul g, g, 3\n  sub k, k, 1\n  bgt L1, k, 0\n  mov i64:8(m), g\n  mov r, g\n"); break;
+  case 2: S ("  mov g, i64:(m)\n  xor g, g, a\n  mov i64:16(m), g\n  mov r1, i64:16(m)\n  add r, r1, g\n"); break;
+  default: S ("  mov g, a\n  mov r1, b\n  add r2, g, r1\n  mul r1, r2, g\n  sub g, r1, r2\n  and r, g, 65535\n  blt L2, a, b\n  add r, r, g\nL2:\n"); break;
+  }
+  S ("  mov g, r0\n  ret r\n"); end_func ();
+}
+
 int progfam_thorough;
 static const family FAMILIES[] = {
   {"F1a-ext-chains", f1a_count, f1a_render, in_intgrid_n, in_intgrid},
@@ -441,6 +456,7 @@ static const family FAMILIES[] = {
   {"F9-inlining", f9_count, f9_render, f9_ninputs, f9_input},
   {"F10-branch-rewrites", f10_count, f10_render, f10_ninputs, f10_input},
   {"F11-fp-compares", f11_count, f11_render, f11_ninputs, f11_input},
+  {"F12-hard-register-variables", f12_count, f12_render, in_intgrid_n, in_intgrid},
 };
 #define NFAM ((int) (sizeof (FAMILIES) / sizeof (FAMILIES[0])))
 #endif
